@@ -1225,7 +1225,10 @@ func ruleFlushOffsetsFollowEveryItem(w *core.World, r *core.Report, c *senderCtx
 			continue
 		}
 		args, ok := c.flushArgsAt(s)
-		if !ok {
+		var offsets []ssa.Value // what the flush may store
+		if ok {
+			offsets = []ssa.Value{args[2]}
+		} else if offsets, ok = c.flushOffsetSources(s); !ok {
 			continue
 		}
 		n++
@@ -1259,7 +1262,9 @@ func ruleFlushOffsetsFollowEveryItem(w *core.World, r *core.Report, c *senderCtx
 			}
 			bad = "a flush stores an offset that is neither the received item's nor the running position: " + v.String()
 		}
-		visit(args[2])
+		for _, o := range offsets {
+			visit(o)
+		}
 		r.Check(bad == "", "sendCmdsBatch/"+c.flushRole(s.Instr)+"/offset-is-the-running-position", pos, "%s", bad)
 	}
 	if n == 0 {
